@@ -55,6 +55,11 @@ pub struct AdvHistory {
     /// Whether to call `build()` at the end even with pending changes (must panic then).
     pub build_anyway: bool,
     pub final_strat: Strat,
+    /// Only the verdict of every request is compared with the model while the history runs; the observable
+    /// state (which includes many look-ups by name) is compared once, at the end. Observing after every
+    /// request could hide a builder that is wrong only when it is left alone between two requests.
+    #[serde(default)]
+    pub quiet: bool,
 }
 
 fn adv_req() -> impl Strategy<Value = AdvReq> {
@@ -127,9 +132,12 @@ fn adv_history() -> impl Strategy<Value = AdvHistory> {
         ],
         prop::bool::weighted(0.3),
         strat_strategy(),
+        prop::bool::weighted(0.15),
     )
-        .prop_map(|(native, reqs, build_anyway, final_strat)| AdvHistory {
+        .prop_map(|(native, reqs, build_anyway, final_strat, quiet)| AdvHistory {
             native,
+            // the long runs are always left alone
+            quiet: quiet || reqs.len() > 280,
             reqs,
             build_anyway,
             final_strat,
@@ -461,7 +469,7 @@ pub fn check_c12(h: &AdvHistory) -> Result<CaseInfo, Failure> {
                     }
                 };
                 let expect_ok = model.add_ok(&name);
-                let before = if expect_ok { None } else { Some(snapshot(&*sut, &model, &fresh)) };
+                let before = if expect_ok || h.quiet { None } else { Some(snapshot(&*sut, &model, &fresh)) };
                 let res = guarded!(step, req, sut.add(&name, *size, *align, *uninit, *via));
                 match (res, expect_ok) {
                     (Ok(id), true) => {
@@ -480,8 +488,8 @@ pub fn check_c12(h: &AdvHistory) -> Result<CaseInfo, Failure> {
                     }
                     (Err(_), false) => {
                         rejected.insert("dup_name");
-                        let after = snapshot(&*sut, &model, &fresh);
-                        if Some(&after) != before.as_ref() {
+                        let after = if h.quiet { None } else { Some(snapshot(&*sut, &model, &fresh)) };
+                        if after != before {
                             return Err(fail("state-changed-after-error", step, req, format!("rejected add changed the observable state: before {:?} after {:?}", before, after)));
                         }
                     }
@@ -534,7 +542,7 @@ pub fn check_c12(h: &AdvHistory) -> Result<CaseInfo, Failure> {
                     _ => unreachable!(),
                 };
                 let verdict = model.remove_verdict(id);
-                let before = if verdict.is_ok() { None } else { Some(snapshot(&*sut, &model, &fresh)) };
+                let before = if verdict.is_ok() || h.quiet { None } else { Some(snapshot(&*sut, &model, &fresh)) };
                 let res = guarded!(step, req, sut.remove(DatumId::from(id)));
                 match (res, verdict) {
                     (Ok(()), Ok(())) => {
@@ -546,8 +554,8 @@ pub fn check_c12(h: &AdvHistory) -> Result<CaseInfo, Failure> {
                     }
                     (Err(_), Err(kind)) => {
                         rejected.insert(kind);
-                        let after = snapshot(&*sut, &model, &fresh);
-                        if Some(&after) != before.as_ref() {
+                        let after = if h.quiet { None } else { Some(snapshot(&*sut, &model, &fresh)) };
+                        if after != before {
                             return Err(fail("state-changed-after-error", step, req, format!("rejected removal of {} ({}) changed the observable state", id, kind)));
                         }
                     }
@@ -579,7 +587,9 @@ pub fn check_c12(h: &AdvHistory) -> Result<CaseInfo, Failure> {
                 }
             }
         }
-        agree(&*sut, &model, step, req)?;
+        if !h.quiet {
+            agree(&*sut, &model, step, req)?;
+        }
         // names unique within every variant (as reported by the builder itself)
         for v in 0..model.variants.len() {
             let mut names = BTreeSet::new();
